@@ -150,6 +150,32 @@ def generate(rng, tier):
             ops.append({"op": "adjust", "on": "R", "how": how, "amounts": amounts})
         actors.append({"name": "adj", "ops": ops})
     rng.shuffle(actors)
+    # what a block borrowed is a resource supply of its own only while the block lasts: once all
+    # blocks have ended, a claim on any of those shares (kept by reference) finds nothing
+    shares = []
+
+    def find_shares(node):
+        if isinstance(node, dict):
+            if node.get("op") == "borrow" and node.get("share"):
+                shares.append((node["share"], node["amounts"]))
+            for value in node.values():
+                find_shares(value)
+        elif isinstance(node, list):
+            for item in node:
+                find_shares(item)
+    find_shares(actors)
+    if shares and rng.random() < 0.6:
+        ops = []
+        for share, amounts in rng.sample(shares, min(len(shares), 2)):
+            positive = {k: v for k, v in amounts.items() if v > 0}
+            if positive:
+                serial[0] += 1
+                ops.append({"op": "borrow", "on": "R", "nested": share, "id": "b%d" % serial[0],
+                            "amounts": {k: rng.randint(1, v) if isinstance(v, int) else v
+                                        for k, v in positive.items()},
+                            "mode": "claim", "late": True, "body": [{"op": "postpone", "k": 1}]})
+        if ops:
+            actors.append({"name": "zlate", "after": 2048, "ops": ops})
     actors.append({"name": "zprobe", "after": 4096, "ops": [{"op": "levels", "on": "R"}]})
     if rng.random() < 0.12:
         # fractional (dyadic) amounts: float levels instead of int levels
@@ -164,6 +190,15 @@ def generate(rng, tier):
                     halve(item)
         halve(actors)
         caps = {k: v * 0.5 for k, v in caps.items()}
+    if rng.random() < 0.08 and all(isinstance(v, int) for v in caps.values()):
+        # a huge supply next to small amounts (bytes of memory against small buffers): nobody
+        # ever waits, but every single unit must still be accounted for
+        caps = {k: v + 2 ** 34 for k, v in caps.items()}
+        serial[0] += 1
+        actors.insert(0, {"name": "u%d" % len(actors), "ops": [
+            {"op": "sleep", "d": rng.choice(DELAYS)},
+            {"op": "borrow", "on": "R", "id": "b%d" % serial[0], "amounts": dict(caps),
+             "mode": "claim", "body": [{"op": "postpone", "k": 1}]}]})
     return {"property": ID,
             "scenario": {"resources": {"R": {"kind": kind, "levels": caps}}, "actors": actors},
             "plan": [], "config": {"waitq": rng.choice(["heap", "sd"])}}
@@ -230,6 +265,12 @@ class Monitor:
                 elif what == "enter":
                     block = self.blocks[ident]
                     block["phase"] = "held"
+                    if name.startswith("S") and name not in self.supplies and \
+                            any(v > 0 for v in amounts.values()):
+                        self.bad.append(("borrowed-from-ended-share",
+                                         "%s: %s %s of %r from share %s was granted although the "
+                                         "block that borrowed the share is not entered (ended or "
+                                         "never entered)" % (ev[3], mode, ident, amounts, name)))
                     if ev[1] != block["req_act"]:
                         self.waited = True
                     if block["mode"] == "claim" and ev[2] != block["req_time"]:
